@@ -93,7 +93,7 @@ func runC05(c *Ctx) {
 	c05Verify(c, verify, adPay, epPay)
 
 	// ---- S4 record types ------------------------------------------------------------------------------
-	c05Records(c, verify, adPay.SSA.Name(), epPay.SSA.Name())
+	c05Records(c, verify, adPay.SSA, epPay.SSA)
 }
 
 func c05Payload(c *Ctx, fn *Fn, want []wantWrite, flag string) {
@@ -296,7 +296,7 @@ func c05Verify(c *Ctx, verify, adPay, epPay *Fn) {
 	c.Floor("C05.S3-ep-signer-compared", 2)
 }
 
-func c05Records(c *Ctx, verify *Fn, adPayName, epPayName string) {
+func c05Records(c *Ctx, verify *Fn, adPayFn, epPayFn *ssa.Function) {
 	// Domain()/Codec() of the two record types
 	type rec struct{ domain, codec string }
 	recs := map[string]rec{}
@@ -340,11 +340,11 @@ func c05Records(c *Ctx, verify *Fn, adPayName, epPayName string) {
 				switch {
 				case strings.Contains(tn, "advSignatureRecord"):
 					v := fs["advID"]
-					ok := v != nil && v.Op == "extract" && v.Args[0].Op == "call" && strings.HasSuffix(v.Args[0].Name, "."+adPayName)
+					ok := v != nil && v.Op == "extract" && v.Args[0].Op == "call" && v.Args[0].Callee == adPayFn
 					c.Check(ok, "C05.S4-record-types", key+" advertisement record", cs.In.Pos(), "advertisement record sealed with the advertisement payload", "advertisement signature record is not filled with the advertisement payload")
 				case strings.Contains(tn, "epSignatureRecord"):
 					v := fs["payload"]
-					ok := v != nil && v.Op == "extract" && v.Args[0].Op == "call" && strings.HasSuffix(v.Args[0].Name, "."+epPayName)
+					ok := v != nil && v.Op == "extract" && v.Args[0].Op == "call" && v.Args[0].Callee == epPayFn
 					c.Check(ok, "C05.S4-record-types", key+" extended-provider record", cs.In.Pos(), "extended-provider record sealed with the extended-provider payload", "extended-provider signature record is not filled with the extended-provider payload")
 				default:
 					c.Bad("C05.S4-record-types", key, cs.In.Pos(), "sealed record is neither of the two signature record types: "+abbreviate(r.String()))
